@@ -18,7 +18,7 @@ MANIFEST = {
     'note': 'Fault-free values are computed by hand-written arithmetic in the check (the chain is linear). With several faults in one cell either error kind is accepted.',
 }
 RULE = 'case = (path, position, fault subset); non-trivial = subset non-empty and loaded+calculated; distinct = case key'
-ASSUMPTIONS = ['one workbook shape; fault kinds are those the statement lists']
+ASSUMPTIONS = ['one workbook shape; fault kinds are those the statement lists', 'a #REF! literal that is an operand of a union, intersection or range operator must give an error and stay local; which error is not fixed (the library answers #VALUE!)']
 
 FAULTS = ['func', 'xlfn', 'sheet', 'book', 'unreadable', 'name', 'ref', 'link', 'xsheetZ', 'xsheetA', 'name2', 'xlslink']
 DICT_FAULTS = ['func', 'xlfn', 'name', 'ref', 'name2']
@@ -31,7 +31,8 @@ EXPR = {
     'xlslink': '[1]Sheet1!A1',
 }
 # other spellings of an unknown function: dotted names whose parts are implemented functions, names that extend an implemented one
-ALT = {'func': ['FOO.SUM(A1)', 'SUM.FOO(A1)', 'SUMX(A1)', 'XSUM(A1)', 'CEILING.NOSUCH(A1,1)', 'T.NOSUCH(A1)'],
+ALT = {'ref': ['SUM((A1:A2,#REF!))', 'SUM(A1:A2 #REF!)', 'SUM(A1:#REF!)', 'S!#REF!', 'SUM(#REF!)', "'[b.xlsx]S'!#REF!"],
+       'func': ['FOO.SUM(A1)', 'SUM.FOO(A1)', 'SUMX(A1)', 'XSUM(A1)', 'CEILING.NOSUCH(A1,1)', 'T.NOSUCH(A1)'],
        'xlfn': ['_xlfn.ECMA.CEILING(A1,1)', '_xlfn.CONFIDENCE.T(A1,1,3)', '_xlfn._xlws.NEWSORT(A1)', '_xlfn.SUM.X(A1)', '_xlfn.X.SUM(A1)', '_xlfn.XSUM(A1)', '_XLFN.newfunc(A1)']}
 KIND = {'func': ['#NAME?'], 'xlfn': ['#NAME?'], 'sheet': ['#REF!'], 'book': ['#REF!'], 'unreadable': ['#REF!'], 'name': ['#REF!', '#NAME?'],
         'ref': ['#REF!'], 'link': ['#REF!', '#NAME?'], 'xsheetZ': ['#REF!'], 'xsheetA': ['#REF!'], 'name2': ['#REF!', '#NAME?'], 'xlslink': ['#REF!', '#NAME?']}
@@ -68,11 +69,16 @@ def formulas_for(pos, faults, qualify=False, alt=None):
     return c, tgt
 
 
-def expected(pos, faults, path='file'):
+ANY_ERROR = ['#NULL!', '#DIV/0!', '#VALUE!', '#REF!', '#NAME?', '#NUM!', '#N/A']
+
+
+def expected(pos, faults, path='file', alt=None):
     """cell -> ('n', v) | ('t', s) | ('b', x) | ('err', [kinds])"""
     tgt_i = POS.index(pos)
     chain = [11.0, 12.0, 13.0]
     errs = sorted({k for f in faults for k in KIND[f]}) if len(faults) != 1 else KIND[faults[0]]
+    if alt and 'ref' in alt:
+        errs = ANY_ERROR          # a #REF! literal under a reference operator: an error, of a kind the statement does not fix
     exp = {'A1': ('n', 1.0), 'A2': ('n', 2.0), 'B1': ('n', 3.0), 'B2': ('n', 6.0), 'E1': ('n', 8.0)}
     for i, c in enumerate(['C1', 'C2', 'C3']):
         exp[c] = ('err', errs) if faults and i >= tgt_i else ('n', chain[i])
@@ -94,11 +100,11 @@ def expected(pos, faults, path='file'):
     return exp
 
 
-def judge(sol, pos, faults, path, fails):
+def judge(sol, pos, faults, path, fails, alt=None, P=P):
     from xl.evalcell import classify
     import numpy as np
-    exp = expected(pos, faults, path)
-    desc = dict(path=path, pos=pos, faults='+'.join(faults) or 'none', nfaults=len(faults))
+    exp = expected(pos, faults, path, alt)
+    desc = dict(path=path, pos=pos, faults='+'.join(faults) or 'none', nfaults=len(faults), alt=str(alt))
     for c, e in exp.items():
         v = sol.get(P + c)
         if v is None:
@@ -118,11 +124,12 @@ def judge(sol, pos, faults, path, fails):
 def run_case(case):
     path, pos, faults = case[:3]
     alt = case[3] if len(case) > 3 else None
+    book = case[4] if len(case) > 4 else 'b.xlsx'       # the loaded workbook's file name (letter case as written on disk)
     import formulas
     from xl.wbspec import Scratch
     from xl.evalcell import exc_name
     fails = []
-    desc = dict(path=path, pos=pos, faults='+'.join(faults) or 'none', nfaults=len(faults), alt=str(alt))
+    desc = dict(path=path, pos=pos, faults='+'.join(faults) or 'none', nfaults=len(faults), alt=str(alt), book=book)
     try:
         if path == 'file':
             import openpyxl
@@ -140,7 +147,7 @@ def run_case(case):
                 el.file_link = Relationship(type='externalLinkPath', Target=target, TargetMode='External')
                 wb._external_links.append(el)
             with Scratch() as d:
-                wb.save(os.path.join(d, 'b.xlsx'))
+                wb.save(os.path.join(d, book))
                 open(os.path.join(d, 'empty.xlsx'), 'wb').close()
                 wc = openpyxl.Workbook()
                 wa = wc.active
@@ -148,7 +155,7 @@ def run_case(case):
                 wa['A1'], wa['A2'] = 30, 5
                 wc.create_sheet('Beta')['A1'] = 40
                 wc.save(os.path.join(d, 'c.xlsx'))
-                sol = formulas.ExcelModel().loads(os.path.join(d, 'b.xlsx')).finish().calculate()
+                sol = formulas.ExcelModel().loads(os.path.join(d, book)).finish().calculate()
         else:
             cells, _ = formulas_for(pos, faults, qualify=True, alt=alt)
             d = {P + 'A1': 1, P + 'A2': 2}
@@ -156,7 +163,7 @@ def run_case(case):
             sol = formulas.ExcelModel().from_dict(d).calculate()
     except Exception as e:
         return result(1, ['escape'], [Fail('escape', got='%s:%s' % (exc_name(e), str(e)[:120]), exp='loads, finishes and calculates', **desc)])
-    judge(sol, pos, faults, path, fails)
+    judge(sol, pos, faults, path, fails, alt, P="'[%s]S'!" % book)
     return result(1, ['%s:%s:%d-faults:%s' % (path, pos, len(faults), 'ok' if not fails else 'fail')], fails)
 
 
@@ -173,6 +180,13 @@ def cases(tier):
         for r in range(0, len(DICT_FAULTS) + 1):
             for sub in itertools.combinations(DICT_FAULTS, r):
                 yield ['dict', pos, list(sub)]
+        # the loaded workbook under other file names (upper case, mixed case, blanks): singles and pairs of faults
+        for book in ('B.XLSX', 'Budget 2024.xlsx', 'b.XLSX'):
+            for r in (0, 1, 2):
+                for sub in itertools.combinations(FAULTS, r):
+                    if tier == 'quick' and r == 2 and pos != 'middle':
+                        continue
+                    yield ['file', pos, list(sub), None, book]
         # other spellings of the unknown function, alone and next to one other fault
         for k in ALT:
             for i in range(len(ALT[k])):
